@@ -832,3 +832,61 @@ for _fn, _mod in (("init_gth_loc", "eminus.gth"), ("coulomb", "eminus.potentials
     register(Obligation(name=f"C06.{_fn}.atom_order", prop=PROP, engine="Z", functions=[f"{_mod}:{_fn}"], run=LocalPotentialAtomOrder(_mod, _fn),
                         assumes=("engineZ", "z3", "reals"), budget={"quick": 200, "thorough": 400},
                         doc=f"{_fn}: the local potential is the same for every ordering of the atom list, incl. interleaved species (4 atoms, 2 species, symbolic structure factors)"))
+
+
+# ------------------------------------------------------------------------------------------------
+# bounded: the real spherical harmonics on the special directions (a zero x component takes its own branch in the code)
+# ------------------------------------------------------------------------------------------------
+
+
+class YlmSpecialDirections:
+    """BOUNDED: Ylm_real (l <= 3) is a polynomial in the direction cosines, hence continuous on the sphere: its value on every axis / plane /
+    diagonal direction (any zero component; the branch `Gx = 0` of the code) equals the limit from generic neighbouring directions, and the
+    addition theorem sum_m Y_lm(a) Y_lm(b) = (2l + 1)/(4 pi) P_l(cos(a, b)) holds for pairs of such directions (the proof covers generic vectors)."""
+
+    def problems(self):
+        import itertools
+
+        import eminus
+        from eminus.utils import Ylm_real
+
+        eminus.config.backend = "numpy"
+        dirs = np.array([d for d in itertools.product((-1.0, 0.0, 1.0), repeat=3) if any(d)])
+        dirs = np.vstack([dirs, 2.5 * dirs[:6], np.array([[0.0, 1e-3, 5.0], [0.0, -2.0, 1e-3], [0.0, 0.0, -3.0]])])
+        eps = 1e-7 * np.array([0.3, 0.5, 0.7])
+        bad = []
+        from numpy.polynomial.legendre import legval
+
+        for l in range(4):
+            Y = {m: np.asarray(Ylm_real(l, m, dirs.copy())) for m in range(-l, l + 1)}
+            Yn = {m: np.asarray(Ylm_real(l, m, dirs + eps)) for m in range(-l, l + 1)}
+            for m in range(-l, l + 1):
+                d = np.abs(Y[m] - Yn[m])
+                if not np.all(np.isfinite(Y[m])) or d.max() > 1e-5:
+                    i = int(np.nanargmax(d))
+                    bad.append(dict(l=l, m=m, direction=dirs[i].tolist(), value=float(Y[m][i]), value_next_to_it=float(Yn[m][i])))
+            u = dirs / np.linalg.norm(dirs, axis=1)[:, None]
+            cosg = np.clip(u @ u.T, -1, 1)
+            lhs = sum(np.outer(Y[m], Y[m]) for m in range(-l, l + 1))
+            rhs = (2 * l + 1) / (4 * np.pi) * legval(cosg, [0] * l + [1])
+            if np.abs(lhs - rhs).max() > 1e-12:
+                i, j = np.unravel_index(np.argmax(np.abs(lhs - rhs)), lhs.shape)
+                bad.append(dict(l=l, addition_theorem_error=float(np.abs(lhs - rhs).max()), a=dirs[i].tolist(), b=dirs[j].tolist()))
+        return bad
+
+    def __call__(self, ob, tier, seed):
+        try:
+            bad = self.problems()
+        except Exception as e:  # noqa: BLE001
+            bad = [dict(raised=f"{type(e).__name__}: {e}")]
+        if bad:
+            return Result(REFUTED, backend="native", witness=bad[0], replayed=True, replay_info=dict(failing=bad[:5]), detail=f"Ylm_real on a special direction: {bad[0]}")
+        return Result(BOUNDED_OK, backend="native", detail="bounded: 35 directions with zero components, l <= 3: continuous there and the addition theorem holds for all pairs")
+
+    def replay(self, wit):
+        bad = self.problems()
+        return bool(bad), dict(failing=bad[:5])
+
+
+register(Obligation(name="C06.Ylm_real.special_directions", prop=PROP, engine="B", bounded=True, run=YlmSpecialDirections(), functions=["eminus.utils:Ylm_real"],
+                    doc="BOUNDED: real spherical harmonics on axis / plane directions (the Gx = 0 branch): continuity and the addition theorem"))
